@@ -942,6 +942,21 @@ func r16_5(c *Ctx) {
 		k, ok := constString(lk.Index)
 		c.check(ok && k == "Last-Event-Id" && textproto.CanonicalMIMEHeaderKey(k) == k, name+":header-key", P.ipos(lk), "the header map is indexed with the canonical key Last-Event-Id", "the request header map is indexed with a non-canonical key: the client's Last-Event-ID header is never found")
 		hdrVals = lk
+	} else if vals := func() *ssa.Call {
+		// Header.Values(key): the same slice as the map lookup, with the key canonicalised by the library
+		var found *ssa.Call
+		eachInstrDeep(fn, func(in ssa.Instruction) {
+			if call, ok := isStaticCall(in, "(net/http.Header).Values"); ok {
+				if b, ok := isFieldLoad(call.Call.Args[0], "http.Request", "Header"); ok && isReq(b) {
+					found = call
+				}
+			}
+		})
+		return found
+	}(); vals != nil {
+		_, ok := canonicalIsLastEventID(vals.Call.Args[1])
+		c.check(ok, name+":header-key", P.ipos(vals), "Header.Values with a key canonicalising to Last-Event-Id", "Header.Values with another key")
+		hdrVals = vals
 	} else {
 		// Header.Get idiom
 		var get *ssa.Call
@@ -1313,7 +1328,7 @@ func r05_1(c *Ctx) {
 				serverKey, _ = constString(l.Index)
 			}
 		}
-		if call, ok := isStaticCall(in, "(net/http.Header).Get"); ok {
+		if call, ok := isStaticCall(in, "(net/http.Header).Get", "(net/http.Header).Values"); ok {
 			if k, ok := constString(call.Call.Args[1]); ok {
 				serverKey = textproto.CanonicalMIMEHeaderKey(k)
 			}
